@@ -80,6 +80,11 @@ CHECKS.update({
    text='Each input is run through the char function and the wchar_t function; the complete observation (codes, error offsets, component offsets and texts, host bytes, flags, text at every capacity, required sizes, charsWritten, query lists and counts, masks, returned pointers as offsets) is rendered after narrowing and must be identical; ten function families (parse, recompose, resolve, create reference, normalise incl. mask query and makeOwner, compare, escape, unescape, query, filename).',
    ref='DESIGN.md section 3, C19', note=TRUST),
 })
+CHECKS.update({
+ 'C20': dict(cat='model_checking', tech='stateless preemption-bounded exhaustive exploration of 2-3 threads under a serialising scheduler (scheduling points at allocator calls and, in a trace-pc build, at every basic-block edge of the library) + byte comparison of the library\'s writable data sections + free-running ThreadSanitizer pass',
+   text='For all ordered pairs and all triples of ten thread bodies (parse, resolve, shorten, mask query, toString, equals, dissect, compose, normalize, makeOwner on own outputs and shared read-only inputs) every schedule with at most 2 (quick) / 3 (thorough) preemptions at allocator calls, and at most 1 / 2 preemptions at basic-block edges of the library, is executed on the real code under a deterministic serialising scheduler; each thread must observe exactly what it observes alone, the shared allocator ledger must balance, the linker-bracketed writable data sections of the library must stay byte-identical, shared inputs are write-protected. Unsynchronised accesses are additionally looked for by a free-running ThreadSanitizer run of the same bodies on 16 real threads (reported as not exhaustive).',
+   ref='DESIGN.md section 3, C20', note=TRUST + '; sequentially consistent interleavings only; 2-3 threads'),
+})
 NOT_YET = {}
 def main():
     props = [json.loads(l) for l in open(os.path.join(VERIF, 'properties.jsonl'))]
